@@ -105,8 +105,12 @@ def _r5(ctx, pkg):
                         continue
                 break
             return e_
-        for c in ast.walk(pkg.modules[f]):
-            if isinstance(c, ast.Call) and ast.unparse(c.func).split(".")[-1] == "NetworkInfo":
+        from ..pymodel import constructions
+        in_factory = {id(x) for cd in ast.walk(pkg.modules[f]) if isinstance(cd, ast.ClassDef) and cd.name == "NetworkInfo" for x in ast.walk(cd)}
+        for c in constructions(pkg, pkg.modules[f], "NetworkInfo"):
+            if id(c) in in_factory:
+                continue            # read at the factory's call sites, with the arguments in place
+            if True:
                 n += 1
                 args = {k.arg: k.value for k in c.keywords}
                 e = c.args[0] if len(c.args) > 0 else args.get("elements")
